@@ -14,7 +14,7 @@ import (
 func init() { register("C08", checkC08) }
 
 func checkC08(r *Run) {
-	r.Explain = "Decides four agreement conditions without which the decoded binary log cannot equal the JSON log for some program: AGNOSTIC the front-end is encoding-agnostic — the files of package zerolog common to both build configurations import neither encoder package, the configuration-specific files define no method of Event/Context/Array/Logger, and json.Encoder and cbor.Encoder offer the same method set with identical signatures (so keys, field order and call sequence come from the same code); ALPHABET the decoder covers what the encoder emits — all 8 major types in cbor2JsonOneObject, every tag number the encoder's constant tag headers spell is a case of decodeTagData, every simple/float minor the encoder uses is a case of decodeSimpleFloat, float16 is never emitted; WIDTH the item argument is accumulated and printed over the full unsigned 64-bit range (no narrowing conversion between the argument reader and the number formatter), the integer appenders of both encoders widen losslessly (A6), and the CBOR float appenders write the head byte and payload width of their own Go type on every path (a float64 is never compacted into the 4-byte form, whose digits the decoder prints as a float32's); ESCAPE bytes read from the input reach the JSON output only through decodeStringComplex (checked iteration path by iteration path like the JSON escaper), after a certified scan, or on the documented verbatim channel (noQuotes: embedded JSON, address/hex octets that are re-formatted); ELEM every slice appender of the CBOR encoder renders an element exactly as its scalar sibling does; B64 the JSON build and the CBOR decoder render RawCBOR data URLs with the same base64 Encoding variable; HOOK both builds bind the encoder's marshal hook to a function that reads InterfaceMarshalFunc at call time. DUR both encoders compute a duration's number the same way (integer quotient d/unit; float64(d)/float64(unit)); HOOK AppendInterface of both encoders consults the configured marshal function for every value, nil included; A13e no decode helper returns the bytes of a buffer it recycles (DecodeIfBinaryToBytes feeds ConsoleWriter/journald: the previous event's text would turn into the next one's). TSFMT the decoder renders a float (fractional) timestamp with a fractional-seconds layout and an integer one with the whole-seconds layout. TSFMT also: seconds and nanoseconds handed to time.Unix come from one split of the decoded float (n - float64(secs), or both halves of one Modf)."
+	r.Explain = "Decides four agreement conditions without which the decoded binary log cannot equal the JSON log for some program: AGNOSTIC the front-end is encoding-agnostic — the files of package zerolog common to both build configurations import neither encoder package, the configuration-specific files define no method of Event/Context/Array/Logger, and json.Encoder and cbor.Encoder offer the same method set with identical signatures (so keys, field order and call sequence come from the same code); ALPHABET the decoder covers what the encoder emits — all 8 major types in cbor2JsonOneObject, every tag number the encoder's constant tag headers spell is a case of decodeTagData, every simple/float minor the encoder uses is a case of decodeSimpleFloat, float16 is never emitted; WIDTH the item argument is accumulated and printed over the full unsigned 64-bit range (no narrowing conversion between the argument reader and the number formatter), the integer appenders of both encoders widen losslessly (A6), and the CBOR float appenders write the head byte and payload width of their own Go type on every path (a float64 is never compacted into the 4-byte form, whose digits the decoder prints as a float32's); ESCAPE bytes read from the input reach the JSON output only through decodeStringComplex (checked iteration path by iteration path like the JSON escaper), after a certified scan, or on the documented verbatim channel (noQuotes: embedded JSON, address/hex octets that are re-formatted); ELEM every slice appender of the CBOR encoder renders an element exactly as its scalar sibling does; B64 the JSON build and the CBOR decoder render RawCBOR data URLs with the same base64 Encoding variable; HOOK both builds bind the encoder's marshal hook to a function that reads InterfaceMarshalFunc at call time. DUR both encoders compute a duration's number the same way (integer quotient d/unit; float64(d)/float64(unit)); HOOK AppendInterface of both encoders consults the configured marshal function for every value, nil included; A13e no decode helper returns the bytes of a buffer it recycles (DecodeIfBinaryToBytes feeds ConsoleWriter/journald: the previous event's text would turn into the next one's). TSFMT the decoder renders a float (fractional) timestamp with a fractional-seconds layout and an integer one with the whole-seconds layout. TSFMT also: seconds and nanoseconds handed to time.Unix come from one split of the decoded float (n - float64(secs), or both halves of one Modf). ELEM net-text (shared with C02), on every path: the JSON side renders IP/prefix/MAC with the net package's String()."
 	r.NotDec = "Equality of decoded values between the two builds (float text vs value, timestamp precision, IP/MAC notation): value-level, stated and not approximated."
 	r.Assume = []string{"net/strconv/time formatting of decoded values is outside the claim"}
 	pj := r.Use("J")
